@@ -196,7 +196,16 @@ def inventory():
         sig = list(inspect.signature(f).parameters.values())[1:]
         params = [p.name for p in sig]
         req = [p.name for p in sig if p.default is inspect.Parameter.empty]
-        methods.append({'name': name, 'params': params, 'required': req})
+        body = [x for x in ast.parse(textwrap.dedent(
+            inspect.getsource(f))).body[0].body
+            if not (isinstance(x, ast.Expr) and
+                    isinstance(x.value, ast.Constant))]
+        perform = len(body) == 1 and isinstance(body[0], ast.Return) and \
+            isinstance(body[0].value, ast.Call) and \
+            isinstance(body[0].value.func, ast.Attribute) and \
+            body[0].value.func.attr == '_multichannel_perform'
+        methods.append({'name': name, 'params': params, 'required': req,
+                        'perform': perform})
     index = {(c['key'], c['ctor']): c for c in ctors}
     _INV = {'index': index, 'ctors': ctors, 'excluded': excluded, 'unary': unary,
             'binary': binary, 'reflected': reflected, 'methods': methods,
@@ -352,7 +361,10 @@ def in_build(body, finish=False):
     except Exception as e:
         main._current_synthdef = None
         return box.get('r'), e, None
-    return box['r'], None, gp.sd_bytes(sd)
+    try:
+        return box['r'], None, gp.sd_bytes(sd)
+    except Exception as e:      # the definition cannot be written
+        return box['r'], e, None
 
 
 def exc_name(e):
@@ -441,22 +453,29 @@ def ctor_base(c, j):
     return 's' if c['params'][j] in c['required'] else 'o'
 
 
-def ctor_blocks(inv):
-    """Blocks partition the ctor space: (ctor index, None) = full product,
-    (ctor index, (i, j)) = shapes on the pair, base shape elsewhere."""
+def ctor_blocks(inv, triples=False):
+    """Blocks partition the ctor space: [ci, None] = full product (<= 3
+    parameters), [ci, [i, j]] = shapes on the pair, base shape (omitted, or a
+    scalar for a required parameter) elsewhere; with `triples`, additionally
+    [ci, [i, j, k]] for constructors with 4 to 7 parameters (only the cases
+    in which all three positions deviate from the base: the others belong to
+    the pair blocks)."""
     blocks = []
     for ci, c in enumerate(inv['ctors']):
         n = len(c['params'])
         if n <= 3:
             blocks.append([ci, None])
         else:
-            for i, j in itertools.combinations(range(n), 2):
-                blocks.append([ci, [i, j]])
+            for pos in itertools.combinations(range(n), 2):
+                blocks.append([ci, list(pos)])
+            if triples and n <= 7:
+                for pos in itertools.combinations(range(n), 3):
+                    blocks.append([ci, list(pos)])
     return blocks
 
 
-def ctor_block_cases(inv, block, modes, triple=False):
-    ci, pair = block
+def ctor_block_cases(inv, block, modes):
+    ci, pos = block
     c = inv['ctors'][ci]
     n = len(c['params'])
 
@@ -464,28 +483,31 @@ def ctor_block_cases(inv, block, modes, triple=False):
         return [s for s in CTOR_SHAPES
                 if s != 'o' or c['params'][j] not in c['required']]
 
-    if pair is None:
+    if pos is None:
         combos = itertools.product(*[options(j) for j in range(n)])
     else:
-        i, j = pair
         base = [ctor_base(c, k) for k in range(n)]
 
         def gen():
-            for si in options(i):
-                for sj in options(j):
-                    sh = list(base)
-                    sh[i], sh[j] = si, sj
-                    # canonical owner of cases that deviate from the base in
-                    # fewer than two positions (keeps blocks disjoint)
-                    dev = [k for k in (i, j) if sh[k] != base[k]]
-                    if len(dev) == 2:
+            for shs in itertools.product(*[options(k) for k in pos]):
+                sh = list(base)
+                for k, x in zip(pos, shs):
+                    sh[k] = x
+                dev = [k for k in pos if sh[k] != base[k]]
+                if len(pos) == 3:
+                    if len(dev) == 3:
                         yield sh
-                    elif len(dev) == 1:
-                        other = 0 if dev[0] != 0 else 1
-                        if sorted([dev[0], other]) == [i, j]:
-                            yield sh
-                    elif (i, j) == (0, 1):
+                    continue
+                # canonical owner of cases that deviate from the base in
+                # fewer than two positions (keeps blocks disjoint)
+                if len(dev) == 2:
+                    yield sh
+                elif len(dev) == 1:
+                    other = 0 if dev[0] != 0 else 1
+                    if sorted([dev[0], other]) == pos:
                         yield sh
+                elif pos == [0, 1]:
+                    yield sh
         combos = gen()
     for sh in combos:
         for mode in modes:
@@ -730,7 +752,10 @@ def check_meth(case):
 
     tree = mx.expand(specs)
     res = run_pair(table, lambda atoms: call(atoms, specs), tree, call)
-    dis, outcome = compare_pair(f'meth[{name}]', res)
+    m = next(x for x in inventory()['methods'] if x['name'] == name)
+    # methods that only forward to _multichannel_perform share one mechanism
+    fam = 'meth[_multichannel_perform]' if m['perform'] else f'meth[{name}]'
+    dis, outcome = compare_pair(fam, res)
     if dis and any(sh in ('n21', 'cc21') for sh in case['args']):
         # one root cause, one kind: row i of the method is the *UGen* method
         # called with a list argument, and those do not expand
@@ -904,7 +929,8 @@ def check_out(case):
         got[which] = ['ok', units]
     norm = (lambda x: x) if rate == 2 else _kr_norm
     a, b = got['a'], got['b']
-    tag = f"out[{case['cls']}.{case['ctor']}]"
+    owner = next(k for k in cls.__mro__ if case['ctor'] in vars(k))
+    tag = f"out[{owner.__name__}.{case['ctor']}]"   # the code that runs
     if a[0] == 'raise':
         dis.append((f'{tag}-build-raises', want, a[1:],
                     'a channel array of zeros / signals of the right rate '
@@ -915,9 +941,7 @@ def check_out(case):
         ua = sorted(core.canon(norm(u)) for u in a[1])
         uw = sorted(core.canon(norm(u)) for u in want)
         if ua != uw:
-            kind = f'{tag}-unit-count-differs' if len(ua) != len(uw) \
-                else f'{tag}-units-differ-from-law'
-            dis.append((kind, uw, ua,
+            dis.append((f'{tag}-differs-from-law', uw, ua,
                         'output units as terms: expected from the case by '
                         'mc/oracles/mcexpand.py vs decoded bytes'))
         if b[0] == 'ok':
@@ -935,6 +959,105 @@ def check_out(case):
 # Dispatch, workers, replay
 # ---------------------------------------------------------------------------
 
+# ---------------------------------------------------------------------------
+# Standalone reproducer (python source that imports only sc3)
+# ---------------------------------------------------------------------------
+
+def _expr(spec):
+    h = spec[0]
+    if h == 's':
+        return f'x{spec[1]}'
+    inner = ', '.join(_expr(x) for x in spec[1:])
+    if h == 'l':
+        return f'[{inner}]'
+    if h == 'c':
+        return f'ChannelList([{inner}])'
+    return f'({inner},)' if len(spec) == 2 else f'({inner})'
+
+
+def standalone(case):
+    t = case['t']
+    imports = []
+    if t in ('ctor', 'tuple'):
+        short, cn = case['cls'].split('.')
+        mod = 'sc3.synth.ugen' if short == 'ugen' else \
+            'sc3.synth.ugens.' + short
+        if cn != 'SinOsc':
+            imports.append(f'from {mod} import {cn}')
+        specs = ctor_specs(case)
+        table = _table(specs, case['mode'])
+        # parameter names are resolved at run time to keep this plain data
+        head = f"{cn}.{case['ctor']}"
+
+        def call(sp):
+            args = ', '.join(f'**{{P[{j}]: {_expr(x)}}}'
+                             for j, x in enumerate(sp) if x[0] != 'o')
+            return f'{head}({args})'
+        pre = (f'import inspect\nP = list(inspect.signature({head})'
+               f'.parameters)\n')
+    elif t == 'op':
+        specs = [shape_spec(case['recv'], 1000)]
+        if case['other'] is not None:
+            specs.append(shape_spec(case['other'], 8))
+        table = _table(specs, case['mode'])
+        pre = ''
+
+        def call(sp):
+            return (f"{_expr(sp[0])}.{case['name']}("
+                    + ', '.join(_expr(x) for x in sp[1:]) + ')')
+    elif t == 'meth':
+        args = [shape_spec(sh, 8 * (j + 1))
+                for j, sh in enumerate(case['args'])]
+        while args and args[-1][0] == 'o':
+            args.pop()
+        specs = [shape_spec(case['recv'], 1000)] + args
+        table = _table(specs, case['mode'])
+        pre = ''
+
+        def call(sp):
+            return (f"{_expr(sp[0])}.{case['name']}("
+                    + ', '.join(_expr(x) for x in sp[1:]) + ')')
+    else:
+        fixed, chans, bare, table = out_specs(case)
+        imports.append(f"from sc3.synth.ugens.inout import {case['cls']}")
+        specs = list(fixed) + list(chans)
+        pre = ''
+        nf = len(fixed)
+
+        def call(sp):
+            fx = [_expr(x) for x in sp[:nf]]
+            ch = [_expr(x) for x in sp[nf:]]
+            arr = ch[0] if (bare and len(ch) == 1 and sp is specs) \
+                else '[' + ', '.join(ch) + ']'
+            return f"{case['cls']}.{case['ctor']}({', '.join(fx + [arr])})"
+    atoms = []
+    for aid in sorted(table):
+        k = table[aid]
+        if k[0] == 'num':
+            atoms.append(f'    x{aid} = {k[1]!r}')
+        else:
+            atoms.append(f'    x{aid} = SinOsc.{k[0]}({k[1]!r})')
+    atoms = '\n'.join(atoms) or '    pass'
+    singles = '\n'.join(f"    print('   ', {call(c)})"
+                        for c in mx.calls(mx.expand(specs)))
+    finish = t == 'out'
+    tail = ("\nfor g in (with_lists, one_call_per_combination):\n"
+            "    try:\n        sd = SynthDef('c03', g)\n"
+            + ("        sd.dump_ugens()\n" if finish else '') +
+            "    except Exception as e:\n"
+            "        print('raises', type(e).__name__, e)\n")
+    return (
+        "import sc3; sc3.init('nrt')\n"
+        "from sc3.synth.synthdef import SynthDef\n"
+        "from sc3.synth.ugen import ChannelList\n"
+        "from sc3.synth.ugens.oscillators import SinOsc\n"
+        + ''.join(i + '\n' for i in imports) + pre +
+        f"\ndef with_lists():\n{atoms}\n"
+        f"    print('with lists:', {call(specs)})\n"
+        f"\ndef one_call_per_combination():\n{atoms}\n"
+        f"    print('one call per combination:')\n{singles}\n" + tail)
+
+
 CHECKS = {'ctor': check_ctor, 'tuple': check_tuple, 'op': check_op,
           'meth': check_meth, 'out': check_out}
 
@@ -949,7 +1072,8 @@ def _run_cases(cases, acc):
         dis, nt, outcome = check_case(case)
         main._current_synthdef = None
         for kind, exp, obs, detail in dis:
-            acc.violation(kind, case, exp, obs, detail)
+            acc.violation(kind, case, exp, obs, detail,
+                          standalone=standalone(case))
         if outcome[0] == 'undefined':
             acc.count('cases_not_decided_by_the_law (a single-channel call '
                       'raises)')
@@ -959,7 +1083,7 @@ def _run_cases(cases, acc):
 def work_ctor(job):
     inv = inventory()
     acc = progenum.Acc()
-    blocks = ctor_blocks(inv)
+    blocks = ctor_blocks(inv, job.get('triples', False))
     for bi, block in enumerate(blocks):
         if bi % job['of'] != job['shard']:
             continue
@@ -995,7 +1119,29 @@ def replay(job):
             'outcome': repr(outcome)[:600]}
 
 
-PREDICATES = {}
+def _pred_nested_plain_operand(v):
+    c = v['case']
+    return c.get('t') == 'op' and c.get('other') in ('n21', 'n12') and \
+        c.get('recv') != 's'
+
+
+def _pred_tuple_operand(v):
+    c = v['case']
+    return c.get('t') == 'op' and c.get('other') == 't' and \
+        c.get('recv') != 's'
+
+
+def _pred_nested_method_argument(v):
+    c = v['case']
+    return c.get('t') == 'meth' and \
+        any(sh in ('n21', 'cc21') for sh in c.get('args', ()))
+
+
+PREDICATES = {
+    'nested_plain_list_operand': _pred_nested_plain_operand,
+    'tuple_operand_of_channel_list_operator': _pred_tuple_operand,
+    'nested_list_method_argument': _pred_nested_method_argument,
+}
 
 
 def main(ctx):
@@ -1024,42 +1170,36 @@ def main(ctx):
     ctx.extra['constructors_found'] = len(inv['constructors_found'])
     ctx.extra['constructors_excluded'] = len(inv['constructors_excluded'])
     thorough = ctx.tier == 'thorough'
-    NS = 64
-    import os, sys, time
-    _t = [time.time()]
-    _run = progenum.run
-
-    def timed(*a, **k):
-        r = _run(*a, **k)
-        if os.environ.get('C03_TIMING'):
-            sys.stderr.write(f"{k.get('bound', '')[:12]} {time.time() - _t[0]:.1f}s\n")
-        _t[0] = time.time()
-        return r
-    cmodes = ['n', 'm', 'u'] if thorough else ['n', 'm']
-    timed(ctx, MODNAME, 'work_ctor',
-                 [{'shard': i, 'of': NS, 'modes': cmodes}
-                  for i in range(NS)],
+    NS = 256 if thorough else 64
+    cmodes = ['n', 'm', 'u'] if thorough else ['m']
+    progenum.run(ctx, MODNAME, 'work_ctor',
+                 [{'shard': i, 'of': NS, 'modes': cmodes,
+                   'triples': thorough} for i in range(NS)],
                  bound='ctor: 9 shapes on every pair of parameters (full '
-                       'product for <= 3 parameters), atom modes '
-                       + '/'.join(cmodes))
-    timed(ctx, MODNAME, 'work_list',
+                       'product for <= 3 parameters'
+                       + (', every triple for 4-7 parameters' if thorough
+                          else '') + '), atom modes ' + '/'.join(cmodes))
+    progenum.run(ctx, MODNAME, 'work_list',
                  [{'family': 'tuple', 'shard': i, 'of': 16}
                   for i in range(16)],
-                 bound='tuple: one tuple argument per parameter position')
+                 bound='tuple: one tuple argument per parameter position, '
+                       'atom modes n/u')
     omodes = ['n', 'u', 'm'] if thorough else ['n', 'u']
-    timed(ctx, MODNAME, 'work_list',
+    progenum.run(ctx, MODNAME, 'work_list',
                  [{'family': 'op', 'shard': i, 'of': 32, 'modes': omodes}
                   for i in range(32)],
                  bound='op: every operator x 6 receiver shapes x 9 operand '
-                       'shapes')
-    timed(ctx, MODNAME, 'work_list',
-                 [{'family': 'meth', 'shard': i, 'of': 32, 'modes': omodes}
-                  for i in range(32)],
+                       'shapes, operand atom modes ' + '/'.join(omodes))
+    mmodes = ['n', 'u', 'm'] if thorough else ['m']
+    progenum.run(ctx, MODNAME, 'work_list',
+                 [{'family': 'meth', 'shard': i, 'of': 64, 'modes': mmodes}
+                  for i in range(64)],
                  bound='meth: every ChannelList method x 4 receiver shapes x '
-                       '6 shapes on every pair of arguments')
+                       '7 shapes on every pair of arguments, argument atom '
+                       'modes ' + '/'.join(mmodes))
     maxlen = 3 if thorough else 2
-    timed(ctx, MODNAME, 'work_list',
+    progenum.run(ctx, MODNAME, 'work_list',
                  [{'family': 'out', 'shard': i, 'of': 32, 'maxlen': maxlen}
                   for i in range(32)],
-                 bound=f'out: 9 output constructors x bus shapes x channel '
+                 bound=f'out: 9 output constructors x 4 bus shapes x channel '
                        f'arrays of <= {maxlen} elements over 6 element kinds')
